@@ -19,7 +19,12 @@ def carve(key, props):
     return deco
 
 
+CURRENT_PROP = None     # property on whose behalf predicates are evaluated (some are wider for the model checks C05/C06)
+
+
 def carved(prop, active, env, mod, t, v, codec):
+    global CURRENT_PROP
+    CURRENT_PROP = prop
     for key in active:
         ent = REGISTRY.get(key)
         if ent is None:
@@ -89,23 +94,28 @@ def _per_named_bits_junk(env, mod, t, v, codec):
                     and isinstance(nv, tuple) and _junk_bits(nv[0], nv[1]))
 
 
-@carve('oer-utf8string-fixed-size-octets', ['C01', 'C16', 'C18', 'C19', 'C13', 'C07'])
+@carve('oer-utf8string-fixed-size-octets', ['C01', 'C06', 'C16', 'C18', 'C19', 'C13', 'C07'])
 def _oer_utf8_fixed(env, mod, t, v, codec):
     """OER UTF8String (SIZE(n)) is encoded as n octets without length: breaks for
     non-ASCII characters."""
     if codec != 'oer':
         return False
+    if CURRENT_PROP == 'C06':       # the octets differ from X.696 for every value (no length determinant)
+        return any_type(env, mod, t, lambda r: r.base.kind == 'UTF8String' and r.size is not None
+                        and not r.size.ext and r.size.lo == r.size.hi)
     return any_node(env, mod, t, v, lambda r, nv: r.base.kind == 'UTF8String' and r.size is not None
                     and not r.size.ext and r.size.lo == r.size.hi and isinstance(nv, str)
                     and len(nv.encode('utf-8')) != len(nv))
 
 
-@carve('oer-integer-extensible-treated-as-constrained', ['C01', 'C16', 'C18', 'C19', 'C13', 'C07'])
+@carve('oer-integer-extensible-treated-as-constrained', ['C01', 'C06', 'C16', 'C18', 'C19', 'C13', 'C07'])
 def _oer_int_ext(env, mod, t, v, codec):
     """OER INTEGER (lb..ub, ...): the extensible constraint is used to pick a
     fixed unsigned/signed width; values outside it are mangled."""
     if codec != 'oer':
         return False
+    if CURRENT_PROP == 'C06':       # values inside the root are written in the constrained form too
+        return any_type(env, mod, t, lambda r: r.base.kind == 'INTEGER' and r.rng is not None and r.rng.ext)
     return any_node(env, mod, t, v, lambda r, nv: r.base.kind == 'INTEGER' and r.rng is not None
                     and r.rng.ext and isinstance(nv, int) and not r.rng.contains(nv))
 
@@ -570,4 +580,29 @@ def _per_open_empty(env, mod, t, v, codec):
                 if c.name == nv[0] and zero_bits(r.mod, c.t, nv[1]):
                     return True
         return False
+    return any_node(env, mod, t, v, pred)
+
+
+@carve('oer-bmp-universal-string-fixed-size-has-length', ['C06'])
+def _oer_bmp_fixed(env, mod, t, v, codec):
+    """OER BMPString / UniversalString with a fixed SIZE are written with a length determinant."""
+    if codec != 'oer':
+        return False
+    return any_type(env, mod, t, lambda r: r.base.kind in ('BMPString', 'UniversalString') and r.size is not None
+                    and not r.size.ext and r.size.lo is not None and r.size.lo == r.size.hi)
+
+
+@carve('oer-addition-group-members-are-separate-additions', ['C06'])
+def _oer_group_flat(env, mod, t, v, codec):
+    """OER: the members of an extension addition group [[ ]] get one presence bit and one open type
+    each instead of the group being one addition encoded as a SEQUENCE."""
+    if codec != 'oer':
+        return False
+
+    def pred(r, nv):
+        if r.base.kind not in ('SEQUENCE', 'SET') or not isinstance(nv, dict):
+            return False
+        if not any(isinstance(a, Group) for a in (r.base.ext or [])):
+            return False
+        return any(c.name in nv for c in flat_additions(r.base))
     return any_node(env, mod, t, v, pred)
